@@ -482,8 +482,11 @@ impl<R: BufRead> TextReportReader<R> {
 
     fn read_extract(&mut self, regex: &Regex, name: &str) -> io::Result<Vec<String>> {
         let line = self.read_line()?;
+        // only the line terminator is not a part of the value; e.g. the base directory
+        // or the last argument of the command may end with whitespace
+        let line = line.trim_end_matches(['\r', '\n']);
         Ok(regex
-            .captures(line.trim())
+            .captures(line)
             .ok_or_else(|| {
                 Error::new(
                     ErrorKind::InvalidData,
@@ -566,7 +569,13 @@ impl<R: BufRead + Send + 'static> ReportReader for TextReportReader<R> {
             )
         })?;
         let base_dir = self.read_extract(&BASE_DIR_RE, "base dir")?.swap_remove(0);
-        let base_dir = Path::from(base_dir);
+        // the base directory is written in the escaped form, like the paths of the files
+        let base_dir = Path::from_escaped_string(&base_dir).map_err(|e| {
+            Error::new(
+                ErrorKind::InvalidData,
+                format!("Malformed header: Failed to parse base dir: {e}"),
+            )
+        })?;
 
         let stats = self.read_extract(&TOTAL_RE, "total file statistics")?;
         let total_file_size = Self::parse_file_len(stats.first(), "total file size")?;
